@@ -19,7 +19,10 @@ RULE = (
     "operations at every position (quick: single damage at every position of "
     "each document plus sampled double/triple damage); rendered with single "
     "spaces / line breaks so token boundaries are exact; x 5 parser "
-    "configurations. distinct = (reader, doc seed, damage list); non-trivial "
+    "configurations; plus character-level damage (delete/insert/replace 1-2 "
+    "characters) of generated documents and of the tests/data corpus, judged by "
+    "the oracle-free trace laws only. distinct = (reader, doc seed, damage "
+    "list); non-trivial "
     "= the damaged token list differs from the original"
 )
 G = gt
@@ -223,6 +226,66 @@ def case(rec, pvl, reader, key, tier, holder):
                                       "damage": desc}, holder)
 
 
+CHAR_POOL = list("=(){},;<>'\"/*#-+ \n") + ["\x01", "\xe9", "END", "GROUP", " = "]
+
+
+def char_damage_case(rec, pvl, reader, key, tier, holder, base_text=None):
+    """Character-level damage (no recogniser oracle): every load that RETURNS
+    must satisfy the three trace laws; loads that raise must raise the
+    documented types."""
+    rng = random.Random(key)
+    if base_text is None:
+        doc = gt.gen_document(rng, reader, max_top=4)
+        base_text = gt.render(doc.tokens, gt.gen_layout(rng, doc.tokens, reader, "wild"))
+    family = "omni" if reader in OMNI else "strict"
+    for rep in range(12 if tier == "quick" else 40):
+        t = base_text
+        edits = []
+        for _ in range(rng.choice((1, 1, 2))):
+            if not t:
+                break
+            pos = rng.randrange(len(t) + 1)
+            op = rng.choice(("delete", "insert", "replace"))
+            if op == "delete" and pos < len(t):
+                t = t[:pos] + t[pos + rng.choice((1, 1, 3)):]
+            elif op == "insert":
+                t = t[:pos] + rng.choice(CHAR_POOL) + t[pos:]
+            elif pos < len(t):
+                t = t[:pos] + rng.choice(CHAR_POOL) + t[pos + 1:]
+            edits.append((op, pos))
+        rec.case((reader, key, "char", rep), t != base_text)
+        rec.count("char_damage_cases")
+        parser = traced_parser(pvl, reader, holder)
+        try:
+            st, res = load(pvl, reader, t, parser=parser)
+        except Spin as e:
+            st, res = "Spin", e
+        wit = {"reader": reader, "seed": key, "damage": edits, "text": t}
+        if st == "ok":
+            rec.count("char_damage_returned")
+            tr = holder.get("trace")
+            for kind, detail in trace_laws(tr, res):
+                rec.violation(CHECK, reader, kind, {"family": family, "ref": "char-level"},
+                              wit, detail)
+        elif st not in ("LexerError", "ParseError", "timeout"):
+            rec.violation(CHECK, reader, "ill-formed-text-raises-undocumented-type",
+                          {"family": family, "ref": "char-level", "lib": st}, wit,
+                          f"{st}: {res}"[:200])
+
+
+def corpus_texts(pvl):
+    import os
+    root = os.path.join(common.REPO, "tests", "data")
+    out = []
+    for dp, dn, fn in os.walk(root):
+        for f in sorted(fn):
+            try:
+                out.append((f, pvl.get_text_from(os.path.join(dp, f))[:3000]))
+            except Exception:
+                pass
+    return out
+
+
 def shard(i, n, tier, seed, rec, hb):
     pvl = common.import_pvl()
     holder = {}
@@ -231,6 +294,15 @@ def shard(i, n, tier, seed, rec, hb):
         for j in range(i, per, n):
             hb.beat()
             case(rec, pvl, reader, f"C05-{seed}-{reader}-{j}", tier, holder)
+            char_damage_case(rec, pvl, reader, f"C05-char-{seed}-{reader}-{j}", tier,
+                             holder)
+    for k, (name, text) in enumerate(corpus_texts(pvl)):
+        if k % n != i:
+            continue
+        hb.beat()
+        for reader in ("default", "PVL", "PDS3"):
+            char_damage_case(rec, pvl, reader, f"C05-corpus-{seed}-{name}-{reader}",
+                             tier, holder, base_text=text)
 
 
 def finish_kwargs(rec, tier):
@@ -238,7 +310,8 @@ def finish_kwargs(rec, tier):
                                    "ill_formed_rejected_properly",
                                    "well_formed_agree", "damage[delete]",
                                    "damage[truncate]", "damage[replace]",
-                                   "damage[missing-value+other]"),
+                                   "damage[missing-value+other]",
+                                   "char_damage_cases", "char_damage_returned"),
                 level="fault_enumeration",
                 assumptions=["reference recogniser vlib/refmodel.py (token "
                              "level; ambiguity => no verdict; empty blocks "
